@@ -34,6 +34,7 @@ type cfg struct {
 	fclose   bool // the peer closes its socket (instead of shutting down its write side)
 	conns    int
 	p, d     int
+	note     string // appended to the name
 	addrs    string // udp: how the two remotes' addresses differ (v4-ports | v4-ips | v6-ports | v6-ips | v6-zones)
 }
 
@@ -49,6 +50,9 @@ func (c cfg) name() string {
 	n := fmt.Sprintf("%s %s %s np=%d b=%d max=%d bursts=%v fin=%s conns=%d", c.trans, c.mode, a, c.npoller, c.b, c.maxReads, c.bursts, f, c.conns)
 	if c.addrs != "" && c.addrs != "v4-ports" {
 		n += " remotes=" + c.addrs
+	}
+	if c.note != "" {
+		n += " " + c.note
 	}
 	return n
 }
@@ -102,6 +106,8 @@ func sameEndpoint(ra net.Addr, sa vsys.Sockaddr) bool {
 
 var lastCounters map[string]int
 var lastChunkOver int
+var lastRaced int
+var lastReused int
 var lastOutcome string
 
 type connState struct {
@@ -255,6 +261,152 @@ func streamBody(c cfg) func() {
 type dg struct {
 	port int
 	n    int
+}
+
+// reuseBody: connection A is closed while a read task of A is in flight, and a new connection B
+// inherits A's descriptor number and receives input: B's bytes must reach B (a stale reader of A
+// must not take them out of B's socket).
+func reuseBody(c cfg) func() {
+	return func() {
+		vsys.Configure(false, false)
+		conf := nbio.Config{Name: "c02", NPoller: 1, ReadBufferSize: c.b, MaxConnReadTimesPerEventLoop: c.maxReads, AsyncReadInPoller: true}
+		c.mode.Apply(&conf)
+		started := 0
+		conf.IOExecute = func(f func(*[]byte)) {
+			vsched.GoNamed("iotask", func() { started++; buf := make([]byte, c.b); f(&buf) })
+		}
+		g := nbio.NewEngine(conf)
+		got := map[*nbio.Conn][]byte{}
+		g.OnData(func(cc *nbio.Conn, data []byte) { got[cc] = append(got[cc], data...) })
+		if err := g.Start(); err != nil {
+			vsched.Fail("harness|engine start: %v", err)
+			return
+		}
+		a, peerA := ekit.Stream(false, 64, 64)
+		fdA := a.VerifFD()
+		if _, err := g.AddConn(a); err != nil {
+			vsched.Fail("harness|AddConn: %v", err)
+			return
+		}
+		sentA := ekit.Payload(1, 1)
+		vsched.GoNamed("peerA", func() { peerA.WriteAll(sentA) })
+		vsched.Block("read task of A started", func() bool { return started > 0 })
+		_ = a.Close()
+		b, peerB := ekit.Stream(false, 64, 64)
+		if b.VerifFD() == fdA {
+			lastReused++
+		}
+		if _, err := g.AddConn(b); err != nil {
+			vsched.Fail("harness|AddConn: %v", err)
+			return
+		}
+		sentB := ekit.Payload(2, c.b+1)
+		peerB.WriteAll(sentB)
+		vsched.WaitIdle()
+		lastCounters = map[string]int{"delivered_conns": len(got), "descriptor_number_reused": lastReused}
+		lastReused = 0
+		lastOutcome = fmt.Sprintf("A=%d/%d B=%d/%d", len(got[a]), len(sentA), len(got[b]), len(sentB))
+		if string(got[b]) != string(sentB) {
+			vsched.Fail("inbound-lost %s async exec=go descriptor-reuse|connection B (which inherited the descriptor number of the closed connection A) was sent %d bytes, its data callback received %d; the closed connection A was handed %d bytes (it was sent %d)", c.mode, len(sentB), len(got[b]), len(got[a]), len(sentA))
+			return
+		}
+		if !strings.HasPrefix(string(sentA), string(got[a])) {
+			vsched.Fail("inbound-corrupted %s async exec=go descriptor-reuse|the closed connection A was handed bytes it was never sent: %v", c.mode, got[a])
+		}
+	}
+}
+
+// udpReopenBody: a remote whose session was closed (by the application) sends again: the datagram
+// must open a new session and be delivered on a live connection, never on the closed one after
+// its close notification. With concurrent=true the second datagram races the Close.
+func udpReopenBody(c cfg, concurrent bool) func() {
+	return func() {
+		vsys.Configure(false, false)
+		g := engineFor(c)
+		type rec struct {
+			conn        *nbio.Conn
+			data        []byte
+			afterClosed bool
+		}
+		var recs []rec
+		opens := map[*nbio.Conn]int{}
+		closed := map[*nbio.Conn]int{}
+		g.OnOpen(func(cc *nbio.Conn) { opens[cc]++ })
+		g.OnClose(func(cc *nbio.Conn, _ error) { closed[cc]++ })
+		g.OnData(func(cc *nbio.Conn, data []byte) {
+			recs = append(recs, rec{cc, append([]byte(nil), data...), closed[cc] > 0})
+		})
+		if err := g.Start(); err != nil {
+			vsched.Fail("harness|engine start: %v", err)
+			return
+		}
+		fd, up := vsys.NewUDPSocket(9000)
+		server := nbio.VerifNewConn(fd, nbio.ConnTypeUDPServer, nil, nil)
+		if _, err := g.AddConn(server); err != nil {
+			vsched.Fail("harness|AddConn: %v", err)
+			return
+		}
+		from := remoteAddr(c.addrs, 7001)
+		up.SendFrom(from, []byte{1})
+		vsched.WaitIdle()
+		if len(recs) != 1 {
+			vsched.Fail("udp-lost %s reopen|the first datagram was not delivered", c.mode)
+			return
+		}
+		s1 := recs[0].conn
+		if concurrent {
+			vsched.GoNamed("closer", func() { _ = s1.Close() })
+			vsched.GoNamed("remote7001", func() { up.SendFrom(from, []byte{2}) })
+		} else {
+			_ = s1.Close()
+			vsched.WaitIdle()
+			up.SendFrom(from, []byte{2})
+		}
+		vsched.WaitIdle()
+		if concurrent {
+			// a datagram that races the Close may still reach the dying session (counted, not
+			// judged); once the close has settled, the next one must open a new session
+			if len(recs) == 2 && recs[1].afterClosed {
+				lastRaced++
+			}
+			recs = recs[:1]
+			up.SendFrom(from, []byte{2})
+			vsched.WaitIdle()
+		}
+		lastCounters = map[string]int{"datagrams_delivered": len(recs), "delivered_conns": len(opens)}
+		if lastRaced > 0 {
+			lastCounters["racing_datagram_delivered_on_the_closing_session_not_judged"] = lastRaced
+			lastRaced = 0
+		}
+		lastOutcome = fmt.Sprintf("udp reopen %d delivered, %d sessions", len(recs), len(opens))
+		if closed[s1] != 1 {
+			vsched.Fail("udp-session-close-count|the closed session got %d close notifications", closed[s1])
+			return
+		}
+		for i, r := range recs {
+			if r.afterClosed {
+				vsched.Fail("udp-delivered-on-closed-session|datagram %d of a remote whose session had been closed (close notification delivered, everything settled) was handed to the data callback with the closed connection", i)
+				return
+			}
+		}
+		if len(recs) != 2 {
+			vsched.Fail("udp-lost %s reopen|the remote sent again after its session was closed: %d of 2 datagrams delivered, %d still queued", c.mode, len(recs), up.Queued())
+			return
+		}
+		s2 := recs[1].conn
+		if s2 != s1 {
+			lastCounters["sessions_reopened"] = 1
+			if opens[s2] != 1 {
+				vsched.Fail("udp-open-count|the new session of the remote got %d open notifications", opens[s2])
+			}
+			if cl, _ := s2.IsClosed(); cl && closed[s2] == 0 {
+				vsched.Fail("udp-delivered-on-closed-session|the datagram was delivered on a connection that is closed")
+			}
+		}
+		if string(recs[1].data) != string([]byte{2}) {
+			vsched.Fail("udp-boundary|second datagram delivered as %v", recs[1].data)
+		}
+	}
 }
 
 func udpBody(c cfg, dgs []dg) func() {
@@ -446,6 +598,19 @@ func build(tier string) []*vkit.Scenario {
 					// than the buffer on both connections at the same time
 					c = cfg{mode: e.mode, async: e.async, exec: e.exec, npoller: 2, b: b, maxReads: mr, trans: "tcp", bursts: []int{1, 2 * b}, conns: 2, p: 2, d: 0}
 					add(c, streamBody(c))
+				}
+				// a descriptor number reused while a read task of its previous owner is in flight
+				if e.async && e.exec == "go" && b == 2 && mr == 1 {
+					c := cfg{mode: e.mode, async: true, exec: "go", npoller: 1, b: b, maxReads: mr, trans: "tcp", bursts: []int{1, b + 1}, conns: 2, p: 2, d: 0, note: "descriptor-reused-while-reading"}
+					add(c, reuseBody(c))
+				}
+				// UDP: a remote sends again after its session was closed
+				if b == 2 && mr == 1 {
+					for _, conc := range []bool{false, true} {
+						c := cfg{mode: e.mode, async: e.async, exec: e.exec, npoller: 1, b: b, maxReads: mr, trans: "udp", bursts: []int{1, 1}, conns: 1, p: 2, d: 0}
+						c.note = map[bool]string{false: "remote-sends-again-after-close", true: "remote-sends-again-racing-close"}[conc]
+						add(c, udpReopenBody(c, conc))
+					}
 				}
 				// UDP: two remotes x <= 2 datagrams
 				for _, dgs := range [][]dg{
